@@ -211,28 +211,39 @@ def check(pid, tier, seed, only_sub=None):
             log("[%s] flaky replay of %s: %s" % (pid, path, [r[0] for r in res]))
         return False, "", ""
 
-    # ---- replay tier: regression corpus must pass, stored findings are reported as known
-    for path in sorted(glob.glob(os.path.join(VERIF, "corpus", pid, "*.case"))):
-        replayed += 1
+    # ---- replay tier: regression corpus must pass, stored findings are reported as known.
+    # One replay each, in parallel; only an unexpected outcome is confirmed (3x) before it counts.
+    def replay_job(args):
+        kind, obj, path = args
         sub = sub_of(path)
         if sub not in sub2bin:
-            continue
-        st, key, msg, tail = replay_once(sub2bin[sub], path, os.path.join(WORK, "%s.corpus" % pid))
-        if st in ("fail", "crash", "timeout"):
-            ok, key, msg = confirm(path, "corpus")
-            if ok:
-                violations.append((path, key, msg))
-    for f in kf:
-        path = os.path.join(VERIF, f["replay"])
+            return kind, obj, path, ("skip", "", "", "")
+        tag = hashlib.sha1(path.encode()).hexdigest()[:10]
+        return kind, obj, path, replay_once(sub2bin[sub], path, os.path.join(WORK, "%s.rt.%s" % (pid, tag)), timeout=600)
+    rjobs = [("corpus", None, p) for p in sorted(glob.glob(os.path.join(VERIF, "corpus", pid, "*.case")))]
+    rjobs += [("finding", f, os.path.join(VERIF, f["replay"])) for f in kf]
+    with ThreadPoolExecutor(max_workers=NCPU) as ex:
+        rres = list(ex.map(replay_job, rjobs))
+    for kind, f, path, (st, key, msg, tail) in rres:
         replayed += 1
-        ok, key, msg = confirm(path, "finding")
-        if ok and any(key_matches(k, key) for k in f["keys"]):
-            known_hits.append(f)
-            log("KNOWN-FINDING: property=%s %s [%s]" % (pid, f["what"], f["id"]))
-        elif ok:
-            violations.append((path, key, msg))
+        if kind == "corpus":
+            if st in ("fail", "crash", "timeout"):
+                ok, key, msg = confirm(path, "corpus")
+                if ok:
+                    violations.append((path, key, msg))
         else:
-            log("[%s] note: stored finding %s no longer fails" % (pid, f["id"]))
+            if st in ("fail", "crash", "timeout") and any(key_matches(k, key) for k in f["keys"]):
+                known_hits.append(f)
+                log("KNOWN-FINDING: property=%s %s [%s]" % (pid, f["what"], f["id"]))
+            elif st in ("fail", "crash", "timeout"):
+                ok, key, msg = confirm(path, "finding")
+                if ok and any(key_matches(k, key) for k in f["keys"]):
+                    known_hits.append(f)
+                    log("KNOWN-FINDING: property=%s %s [%s]" % (pid, f["what"], f["id"]))
+                elif ok:
+                    violations.append((path, key, msg))
+            else:
+                log("[%s] note: stored finding %s no longer fails" % (pid, f["id"]))
     exclude = sorted(set(k for f in kf for k in f["keys"]))
 
     # ---- search tier
